@@ -46,6 +46,7 @@ class Facts:
         self.all_units = need
         self._fns = None
         self.loaded_functions = 0
+        self.touched = {}       # definitions handed out by fns()/fn(): what a module looked at (bin/automut picks its candidate lines here)
 
     def _load(self):
         if self._fns is not None:
@@ -80,6 +81,7 @@ class Facts:
             if tmpl is not None and f.tmpl != tmpl:
                 continue
             out.append(f)
+            self.touched[(f.name, f.file, f.line)] = f
         return out
 
     def fn(self, name, sig=None, file=None, tmpl=None):
